@@ -61,7 +61,7 @@ FLOORS = {
               "counters": {"read_bytes_calls": 15000, "blocks_computed": 40000, "files_concat_checked": 18000,
                            "files_split_into_several_nonempty_blocks": 4500,
                            "internal_boundaries_checked": 10000, "read_text_calls": 11000,
-                           "read_text_blocksize_int": 8000, "read_text_blocksize_none": 2800,
+                           "read_text_blocksize_int": 8000, "reads_computed_together": 2700, "read_text_blocksize_none": 2800,
                            "read_text_include_path": 1600, "read_text_files_per_partition": 650,
                            "lines_compared": 600000},
               "sets": {"delimiters": 8, "blockings": 6000},
@@ -70,7 +70,7 @@ FLOORS = {
                  "counters": {"read_bytes_calls": 144000, "blocks_computed": 480000, "files_concat_checked": 189000,
                               "files_split_into_several_nonempty_blocks": 62000,
                               "internal_boundaries_checked": 150000, "read_text_calls": 115000,
-                              "read_text_blocksize_int": 82000, "read_text_blocksize_none": 33000,
+                              "read_text_blocksize_int": 82000, "reads_computed_together": 30000, "read_text_blocksize_none": 33000,
                               "read_text_include_path": 22000, "read_text_files_per_partition": 9000,
                               "lines_compared": 9000000},
                  "sets": {"delimiters": 8, "blockings": 70000},
@@ -488,6 +488,37 @@ def _check_text(ctx, paths, texts, delim, enc, bs=None, fpp=None, include_path=F
                       "each file alone is read correctly; together got %r expected %r" % (lines[:12], exp[:12]), **detail)
 
 
+def _check_together(ctx, paths, blobs, delim, bd, enc, bss):
+    """The same files read with several blocksizes and computed in ONE graph: every read must give what it gives
+    when computed alone (its blocks are 'the blocks of this read', whatever else is in the graph)."""
+    import dask
+    import dask.bag as db
+    from dask.bytes import read_bytes
+
+    arg = list(paths)
+    kw = {"encoding": enc}
+    if delim is not None:
+        kw["linedelimiter"] = delim
+    try:
+        bags = [db.read_text(arg, **(dict(kw, blocksize=bs) if bs is not None else kw)) for bs in bss]
+        alone = [list(b.compute(scheduler="sync")) for b in bags]
+        together = [list(x) for x in dask.compute(*bags, scheduler="sync")]
+        reads = [[b for per in read_bytes(arg, delimiter=bd, blocksize=bs, sample=False)[1] for b in per] for bs in bss]
+        balone = [list(dask.compute(*r, scheduler="sync")) for r in reads]
+        btogether = [list(x) for x in dask.compute(*reads, scheduler="sync")]
+    except Exception:  # noqa: BLE001
+        return      # failures of a single read are diagnosed by the single-read facets
+    ctx.count("reads_computed_together", len(bss))
+    if together != alone:
+        i = next(j for j in range(len(bss)) if together[j] != alone[j])
+        ctx.violation("read_text:several-blocksizes-in-one-graph:differs-from-alone",
+                      "blocksize=%r next to blocksizes %r: %r, alone %r" % (bss[i], bss, together[i][:12], alone[i][:12]))
+    if btogether != balone:
+        i = next(j for j in range(len(bss)) if btogether[j] != balone[j])
+        ctx.violation("read_bytes:several-blocksizes-in-one-graph:differs-from-alone",
+                      "blocksize=%r next to blocksizes %r: %r, alone %r" % (bss[i], bss, btogether[i][:12], balone[i][:12]))
+
+
 # --------------------------------------------------------------------------- run
 def _run_exhaustive(case, ctx):
     delim = case["delim"]
@@ -542,6 +573,7 @@ def _run_random(case, ctx):
                     include_path=rng.random() < 0.5, arg=arg)
         for i, bs in enumerate(_blocksizes(rng, sizes, 4)):
             _check_text(ctx, fs.paths, texts, delim, enc, bs=bs, include_path=(i == 0), arg=arg if i == 1 else None)
+        _check_together(ctx, fs.paths, blobs, delim, bd, enc, _blocksizes(rng, sizes, 3) + [None])
     ctx.sample = {"delimiter": delim, "encoding": enc, "texts": [t[:40] for t in texts],
                   "expected_lines": [ln for t in texts for ln in expected_lines(t, delim)][:8]}
 
